@@ -10,7 +10,7 @@ ENGINES = [
 CHECKS = {}
 
 
-def bus(prop, quick_args, thorough_args, qd=60, td=900, variant="plain"):
+def bus(prop, quick_args, thorough_args, qd=150, td=1200, variant="plain"):
     return {
         "harness": "busmc", "sources": SRC, "deps": DEPS, "variant": variant,
         "quick": {"parts": 16, "args": ["--prop", prop] + quick_args, "deadline": qd,
@@ -35,4 +35,34 @@ CHECKS["C01"] = {
     "assumptions": ["NN > 16 is outside the statement: reports there are don't-care",
                     "silence is modelled as a full receive timeout of the current state (or 2 s)"],
     "runs": [bus("C01", ["--validate-every", 1, "--validate-maxk", 1], ["--validate-every", 6, "--validate-maxk", 2])],
+}
+
+CHECKS["C02"] = {
+    "engine": "busmc", "design_ref": "5/C02",
+    "level": "model_checking",
+    "level_text": "every execution of the real handler+device sending a queued request against a scripted participant, with at most k "
+                  "deviations of the environment (any symbol replaced/dropped/inserted, silence, echo corruption or loss, lost arbitration) "
+                  "at every step, is judged by a reference wire-format monitor: symbols written, ACK/NAK policy, closing SYN, result and report",
+    "level_note": "bounded by the request catalogue (plus all 256 data values for NN=1), participant variants, retry settings and k; "
+                  "the waiter of sendAndWait is emulated on the bus thread (threads are C04's subject)",
+    "technique": "deviation-bounded exhaustive exploration (stateless DFS by replay + validated state hashing) of the implementation against a reference monitor",
+    "rule": "scenario = device x request x participant variant (conformant, NAK/ACK, NAK NAK, bad-CRC response then good, bad twice) x retry setting; "
+            "all environment choice sequences with <=k deviations and <=c chunk deviations; plus a sweep of all 256 data values x 3 destination kinds",
+    "assumptions": ["a repeated master part is the complete telegram including QQ (as the passive receive side expects)",
+                    "after a failed exchange a closing SYN is optional"],
+    "runs": [bus("C02", ["--validate-every", 1, "--validate-maxk", 1], ["--validate-every", 6, "--validate-maxk", 2])],
+}
+CHECKS["C03"] = {
+    "engine": "busmc", "design_ref": "5/C03",
+    "level": "model_checking",
+    "level_text": "every write of ebusd in every execution with <=k environment deviations (contenders at the arbitration slot, foreign "
+                  "telegrams, noise, silence) and requests arriving at every read call is judged by an entitlement monitor that sees the interleaved bus log",
+    "level_note": "initialSend is kept off; the numeric value of the lock counter is not constrained beyond 'one further SYN after a loss'; "
+                  "answering (c) is judged in C15",
+    "technique": "deviation-bounded exhaustive exploration (stateless DFS by replay + validated state hashing) of the implementation against a reference monitor",
+    "rule": "scenario = device x configuration (read-only, own address, lock count, SYN generation, bus-lost retries) x traffic shape "
+            "(requests from start / arriving at any read call, foreign telegrams); all environment choice sequences with <=k deviations, "
+            "<=c chunk deviations, <=r request arrivals",
+    "assumptions": ["AUTO-SYN interval = 10*masterNumber+51 ms until the own SYN was echoed once, 40 ms afterwards (protocol.h constants)"],
+    "runs": [bus("C03", ["--validate-every", 1, "--validate-maxk", 1], ["--validate-every", 6, "--validate-maxk", 2])],
 }
